@@ -290,7 +290,7 @@ pub fn exec_ord<T: OrdElem>(scn: &Scenario, prop: Prop) -> RunResult {
     if w.desc.slices.iter().any(|s| s.2 != 1) {
         cx.stats.probe("view_stepped_or_reversed");
     }
-    if w.idx.len() < w.parent.len() {
+    if w.idx.len() < w.parent_len() {
         cx.stats.probe("view_has_guard_cells");
     }
     for (k, op) in scn.ops.iter().enumerate() {
@@ -314,8 +314,14 @@ pub fn exec_ord<T: OrdElem>(scn: &Scenario, prop: Prop) -> RunResult {
             _ => {}
         }
         // the state after the operation is part of the trace
-        for x in w.parent.iter() {
+        for x in w.parent_cells().iter() {
             cx.dg.evi(x.to_raw());
+        }
+        if prop == Prop::C03 {
+            if let Some(d) = w.padding_damage() {
+                cx.fail("wrote-outside-parent", format!("{}: {}", op.name, d));
+                break;
+            }
         }
     }
     cx.finish()
@@ -866,7 +872,7 @@ pub fn linear_domain_ok(ty: ElemTy, raws: &[i64]) -> bool {
 
 /// overwrite the parent buffer of `w` with a snapshot
 pub fn restore<T: Elem>(w: &mut World<T>, snap: &[i64]) {
-    for (x, &r) in w.parent.iter_mut().zip(snap) {
+    for (x, &r) in w.parent_cells_mut().iter_mut().zip(snap) {
         *x = T::from_raw(r);
     }
 }
